@@ -102,6 +102,9 @@ type ManifestOpt struct {
 	Annotations  map[string]string
 	Docker       bool
 	Platforms    []*ocispec.Platform // Index only: platform of each member descriptor
+	// SubjectDesc, when set, is written as the subject descriptor instead of the subject node's own
+	// descriptor (same digest, but e.g. another media type or size, as a third-party producer may write it).
+	SubjectDesc *ocispec.Descriptor
 }
 
 func (d *DAG) descs(ids []int) []ocispec.Descriptor {
@@ -133,6 +136,9 @@ func (d *DAG) Manifest(name string, config int, layers []int, o ManifestOpt) int
 	m.MediaType = mt
 	if o.Subject >= 0 {
 		s := d.Nodes[o.Subject].Desc
+		if o.SubjectDesc != nil {
+			s = *o.SubjectDesc
+		}
 		m.Subject = &s
 		succ = append(succ, o.Subject)
 	}
